@@ -151,12 +151,6 @@ impl Session {
                 }
             }
 
-            // If ignore_mac is false, we're dealing with Class A downlink and
-            // therefore can clear uplinks which need to be retained for acknowledgment
-            if !ignore_mac {
-                self.uplink.clear_mac_commands(false);
-            }
-
             #[cfg(feature = "certification")]
             if let Some(port) = encrypted_data.f_port()
                 && port > 0
@@ -189,6 +183,11 @@ impl Session {
                 .unwrap();
 
                 if !ignore_mac {
+                    // An authenticated Class A downlink acknowledges the answers
+                    // which had to be retained until now. This must not happen
+                    // before the MIC is verified: a forged or replayed frame
+                    // would otherwise erase them.
+                    self.uplink.clear_mac_commands(false);
                     // MAC commands may be in the FHDR or the FRMPayload
                     self.handle_downlink_macs(
                         configuration,
